@@ -30,7 +30,11 @@ CLAIMED.update({
     "C01": dict(
         technique="Lean 4 proof chain (control logic, clean stage => all obtained, obtained => declared size) + end-to-end fsck monitor and control correspondence on the real APTMirror.run()",
         text=("C01_exit0_all_stages_clean, C01_clean_stage_all_obtained and C01_clean_stage_sizes are proved for all stage outcomes, "
-              "queues, oracles and prior trees; the real tool is run end-to-end against a simulated upstream under fault plans, "
+              "queues, oracles and prior trees; Props/C01Pool.lean composes them with the C09 refinement through the queue-entry glue "
+              "(Index.poolDFile, compared with the real DownloadFile objects): C01_packages_pool_complete and C01_sources_pool_complete - every "
+              "package or source file the published index names, outside ignore_errors, is below the mirror root with its declared size; "
+              "C01_unpacked_is_obtained / C01_unobtained_not_parsed (Model/Unpack: the variant the pool stage parses is one this run obtained, "
+              "because the skel clean runs in between; compared with _unpack_index + PathCleaner). The real tool is run end-to-end against a simulated upstream under fault plans, "
               "version switches, variant downgrades over two runs and local OSErrors - standard and flat repositories -, its stage sequence "
               "is compared with Model/Control, every run that ends without error is replayed in the whole-run model (Model/Mirror), and an "
               "independent fsck is evaluated whenever it exits 0."),
@@ -78,8 +82,13 @@ CLAIMED.update({
               "(slash / deb-<arch> vs [arch=] spellings only matter through the parsed fields), C17_findKey_scope (an option selects "
               "exactly the repository whose key is its URL without trailing slashes), C17_getBool_table are proved for all line lists; "
               "the character-level model of from_line and the merge are compared with the real Config on random configurations, and "
-              "union / all permutations / option scoping are re-checked on the real objects."),
-        note="Models the code after fixes d7a84c6 and 3fed5fe; the original aliasing is refuted by C17_legacy_alias_counterexample. $variable substitution is compared, not proved. Trusted: Lean kernel, model, harness.",
+              "union / all permutations / option scoping are re-checked on the real objects (URL universe includes nested URLs and URLs that "
+              "differ only in port or credentials). $variable evaluation (Model/Vars.lean: string.Template as a character automaton, in-place "
+              "rounds, 16-round limit): C17_vars_resolved, C17_vars_keys, C17_vars_literal_kept, C17_vars_idempotent, C17_vars_direct and "
+              "C17_vars_direct_order (a setting whose references name $-free settings gets its one-step substitution, whatever the table "
+              "order) are proved; the model is compared with Config._substitute_variables on the table the real parser built (final table or "
+              "error kind), on a directed corpus and random tables."),
+        note="Models the code after fixes d7a84c6 and 3fed5fe; the original aliasing is refuted by C17_legacy_alias_counterexample. For references nested two deep the evaluation can depend on the order of the set lines (C17_vars_order_quirk, replayed on the implementation; DESIGN part I section D, observation). Trusted: Lean kernel, model, harness.",
         design="6/C17"),
 })
 
@@ -98,10 +107,12 @@ CLAIMED.update({
     "C10": dict(
         technique="Lean 4 proof: complete kernel evaluation (decide +kernel) of mustFetch/mustNot vs the modelled substring heuristics over a finite representative universe, unbounded filter/group lemmas; group-by-group correspondence with get_metadata_files on random universes",
         text=("C10_must / C10_mustnot are decided for all 243 configurations x 90 entries of the universe in Props/C10.lean (a finite-universe "
-              "theorem, labelled as such); C10_filtered, C10_group_any_variant, C10_variant_size are unbounded; Model/Release.lean's "
+              "theorem, labelled as such); C10_unconfigured_component (no entry below an unconfigured component - nested ones included - is ever "
+              "selected, for any configuration and any names), C10_filtered, C10_group_any_variant, C10_variant_size are unbounded; Model/Release.lean's "
               "metadataFiles is compared with the real get_metadata_files on random component/architecture universes, and the structured "
-              "mustFetch/mustNot spec is evaluated on the real selection."),
-        note="Finite universe for the substring heuristics; the general statement over all good names is not proved (DESIGN §9). Trusted: Lean kernel, model, harness tokeniser (python-debian is third-party).",
+              "mustFetch/mustNot spec is evaluated on the real selection; end-to-end: must-not-requested, published-variant-wrong-size, and "
+              "half-synced upstream histories (an old file still served under its old date, with or without Content-Length)."),
+        note="Finite universe for the architecture/kind substring heuristics; the general statement over all good names is not proved (DESIGN §9). Trusted: Lean kernel, model, harness tokeniser (python-debian is third-party).",
         design="6/C10"),
     "C11": dict(
         technique="Lean 4 proof (sequential check <-> pairwise agreement; permutation invariance; round counting of the release loop) + verdict correspondence and end-to-end round/exit monitors",
@@ -154,7 +165,9 @@ CLAIMED.update({
         text=("C14_bound, C14_sequential, C14_progress, C14_measure, C14_bounded_length are proved for every nthreads >= 1, any number of "
               "repositories and files (also above the window of 128) and every schedule; real runs under random/FIFO/LIFO/timer-"
               "interleaved gate schedules are monitored at every transfer start/end, checked for deadlock, and their start/spawn/"
-              "acquire/finish/done event sequence must be accepted step by step by the Lean model and end in a final model state."),
+              "acquire/finish/done event sequence must be accepted step by step by the Lean model and end in a final model state; worlds with a "
+              "repository that never gets release files, shared by-hash targets with retry sleeps, and a transfer task that ends cancelled "
+              "inside a stage of more than 128 tasks (every other queued transfer must still start)."),
         note="asyncio atomicity between awaits and semaphore semantics are the model's step rules; no fairness assumed. Trusted: Lean kernel, model, harness (virtual-clock loop).",
         design="6/C14"),
 })
